@@ -9,7 +9,7 @@ extraction report. Nothing here looks at line numbers of /repo: anchors are impl
 Template directives (all start with //@ at the beginning of a line):
   //@unit NAME                      //@serves C06 C13 ...
   //@fn FILE :: IMPL_REGEX :: FN_NAME [:: as NEWNAME]     extract a whole fn item
-  //@range FILE :: IMPL_REGEX :: FN_NAME :: /START/ :: /END/ [:: exclusive]   extract a statement range (emitted in place;
+  //@range FILE :: IMPL_REGEX :: FN_NAME :: [after ]/START/ :: /END/ [:: exclusive]   extract a statement range (emitted in place;
                                     END line included unless `exclusive`)
      inside either block:
        //@sig <text>                replacement for the signature (up to the body's '{'); several lines allowed
@@ -280,9 +280,10 @@ def process_block(kind, header, dirs, report):
             entry['rewrites'][f'facet rename {name} -> {newname}'] = n
         fname = newname or name
     else:
-        impl_rx, name, srx, erx = parts[1], parts[2], parse_rx(parts[3]), parse_rx(parts[4])
+        start_after = parts[3].startswith('after ')
+        impl_rx, name, srx, erx = parts[1], parts[2], parse_rx(parts[3][6:] if start_after else parts[3]), parse_rx(parts[4])
         excl = len(parts) > 5 and parts[5] == 'exclusive'
-        a, b = find_range(src, m, impl_rx, name, srx, erx, excl)
+        a, b = find_range(src, m, impl_rx, name, srx, erx, excl, start_after)
         entry.update(anchor=f'{impl_rx} :: fn {name} :: /{srx}/../{erx}/', src_lines=[line_of(src, a), line_of(src, b)])
         body = src[a:b]
         entry['sha256'] = hashlib.sha256(body.encode()).hexdigest()[:16]
